@@ -79,6 +79,14 @@ class Ctx:
 # ---------------------------------------------------------------- Coq side
 
 def coq_makefile():
+    import fcntl
+    os.makedirs(CACHE, exist_ok=True)
+    with open(os.path.join(CACHE, "coq_makefile.lock"), "w") as lk:
+        fcntl.flock(lk, fcntl.LOCK_EX)
+        return _coq_makefile()
+
+
+def _coq_makefile():
     vs = []
     for d in ("Model", "Proofs", "Props", "Extract"):
         for r, _, fs in os.walk(os.path.join(COQ, d)):
